@@ -41,12 +41,13 @@ type Case struct {
 }
 
 type childCfg struct {
-	Scenario Scenario `json:"scenario"`
-	WorkDir  string   `json:"work_dir"`
-	URL      string   `json:"url"`
-	KillAt   int      `json:"kill_at"`
-	Record   string   `json:"record"` // file to append site names to ("" = none)
-	Name     string   `json:"name"`
+	Scenario     Scenario `json:"scenario"`
+	WorkDir      string   `json:"work_dir"`
+	URL          string   `json:"url"`
+	KillAt       int      `json:"kill_at"`
+	Record       string   `json:"record"` // file to append site names to ("" = none)
+	Name         string   `json:"name"`
+	OmitDefaults bool     `json:"omit_defaults,omitempty"`
 }
 
 const (
@@ -97,7 +98,7 @@ func TestChild(t *testing.T) {
 		n++
 	}
 	verifhook.Set(site)
-	ch, err := world.NewChecker(world.CRLOpts{WorkDir: cfg.WorkDir, Disk: true, Sig: "verify", NoSettle: true, Interval: time.Hour})
+	ch, err := world.NewChecker(world.CRLOpts{WorkDir: cfg.WorkDir, Disk: true, Sig: "verify", NoSettle: true, Interval: time.Hour, OmitDefaults: cfg.OmitDefaults})
 	if err != nil {
 		fmt.Println("CHILD-PROVISION-ERROR", err)
 		os.Exit(3)
@@ -127,6 +128,7 @@ type env struct {
 	wd     string
 	pki    *world.SimplePKI
 	sib    *world.SimplePKI
+	omit   bool // options at their default are rendered as omitted (storage_type, fetch mode, signature mode)
 }
 
 var (
@@ -142,7 +144,7 @@ func setupOrigin(sc Scenario, trickle time.Duration) *env {
 	// the work_dir path contains glob / regexp meta characters: the startup sweep must not interpret the path
 	wd := filepath.Join(world.NewDir("c12"), []string{"crl[prod]", "work", "w*d?", "crl_x_tmp"}[id%4])
 	os.MkdirAll(wd, 0o755)
-	e := &env{origin: world.NewOrigin(), name: fmt.Sprintf("c12-%d-%d", os.Getpid(), id), wd: wd}
+	e := &env{origin: world.NewOrigin(), name: fmt.Sprintf("c12-%d-%d", os.Getpid(), id), wd: wd, omit: id%3 == 1}
 	e.pki, e.sib = pkiFor(e.name)
 	com := commonSerials(sc.N)
 	oldL := e.pki.CRL(1, append([]string{oldOnly}, com...)...)
@@ -179,7 +181,7 @@ func setupOrigin(sc Scenario, trickle time.Duration) *env {
 }
 
 func (e *env) runChild(sc Scenario, killAt int, record string, timed time.Duration) (string, error) {
-	cfg := childCfg{Scenario: sc, WorkDir: e.wd, URL: e.origin.URL("/list.crl"), KillAt: killAt, Record: record, Name: e.name}
+	cfg := childCfg{Scenario: sc, WorkDir: e.wd, URL: e.origin.URL("/list.crl"), KillAt: killAt, Record: record, Name: e.name, OmitDefaults: e.omit}
 	b, _ := json.Marshal(cfg)
 	cmd := exec.Command(os.Args[0], "-test.run", "^TestChild$", "-test.timeout", "120s")
 	cmd.Env = append(os.Environ(), "VERIF_C12_CHILD="+string(b))
@@ -228,7 +230,7 @@ func listDir(d string) []string {
 // restartAndJudge restarts a checker on the crash image (origin broken, strict) and applies the oracle.
 func (e *env) restartAndJudge(c Case, cleanNames map[string]bool) (string, error) {
 	e.origin.Status("/list.crl", 503, "origin down")
-	ch, err := world.NewChecker(world.CRLOpts{WorkDir: e.wd, Disk: true, Sig: "verify", Strict: true})
+	ch, err := world.NewChecker(world.CRLOpts{WorkDir: e.wd, Disk: true, Sig: "verify", Strict: true, OmitDefaults: e.omit})
 	if err != nil {
 		return "provision-error", nil // a clean refusal to start is fail closed
 	}
@@ -401,9 +403,9 @@ func runCase(c Case, x *ev.Ctx) error {
 }
 
 var spec = ev.Spec[Case]{
-	ID:  "C12",
-	Run: runCase,
-	Rule: "crash-point enumeration: scenarios {first load, refresh} x {accepted, rejected signature} x list sizes x DER/PEM on disk storage with signature mode verify. A recording run lists every hook site (each step of LevelDbStore.Update, repository stage/commit/swap points) and every store write (start / insert #i / ext-meta / signer / locations) the scenario passes; then for every index of that sequence (quick: per-entry insert points of larger lists thinned out) a child process re-runs the scenario and SIGKILLs itself at that site, so the work_dir left behind is the real crash image. The parent restarts a fresh checker on the image with the origin broken and strict mode on and judges: if the location is treated as loaded (unlisted probe accepted) then old-only/new-only/common/last-common probes must show exactly one complete accepted list (never the rejected one); 'not loaded' and a clean error are always acceptable; after restart the work_dir (whose path contains glob / regexp meta characters in three of four cases) holds no crl_*_tmp and nothing a crash-free run does not leave either; a location that counts as loaded can be refreshed from a healthy origin. A second phase adds parent-timed SIGKILLs at drawn delays while the origin trickles the body. Non-trivial: the child was really killed; distinct by (scenario, site index / delay bucket).",
+	ID:          "C12",
+	Run:         runCase,
+	Rule:        "crash-point enumeration: scenarios {first load, refresh} x {accepted, rejected signature} x list sizes x DER/PEM on disk storage with signature mode verify. A recording run lists every hook site (each step of LevelDbStore.Update, repository stage/commit/swap points) and every store write (start / insert #i / ext-meta / signer / locations) the scenario passes; then for every index of that sequence (quick: per-entry insert points of larger lists thinned out) a child process re-runs the scenario and SIGKILLs itself at that site, so the work_dir left behind is the real crash image. The parent restarts a fresh checker on the image with the origin broken and strict mode on and judges: if the location is treated as loaded (unlisted probe accepted) then old-only/new-only/common/last-common probes must show exactly one complete accepted list (never the rejected one); 'not loaded' and a clean error are always acceptable; after restart the work_dir (whose path contains glob / regexp meta characters in three of four cases) holds no crl_*_tmp and nothing a crash-free run does not leave either; a location that counts as loaded can be refreshed from a healthy origin. A second phase adds parent-timed SIGKILLs at drawn delays while the origin trickles the body. Non-trivial: the child was really killed; distinct by (scenario, site index / delay bucket).",
 	Assumptions: []string{"process death, not power loss: the page cache survives (no fsync ordering is checked)"},
 }
 
